@@ -480,7 +480,7 @@ def parity_atoms(ts):
                 res |= {a for a in subterms(u[1]) if a[0] in ('a', 'len')}
     return res
 
-def equal(a, b, facts=(), max_split=10):
+def equal(a, b, facts=(), max_split=10, _depth=0):
     """Decide a == b for all values of the atoms.  Returns (ok, witness_assignment|None).
     Case-splits on the parity of atoms under rem(.,2) and on the truth of every ite-condition;
     each case is decided by canonical-form identity."""
@@ -491,6 +491,11 @@ def equal(a, b, facts=(), max_split=10):
         m = {x: add(scale(('a', ('half', key(x))), 2), C(p)) for x, p in zip(pa, par)}
         a1, b1 = (subst(a, m), subst(b, m)) if m else (a, b)
         conds = sorted(cond_atoms(a1) | cond_atoms(b1), key=key)
+        # a condition that itself contains a conditional value (`(ite(p, x | 2, x) & 2) == 0`) is not independent of the
+        # inner condition: split on the innermost ones first, the outer ones fold or are split in the recursive call
+        inner = [c for c in conds if not any(u[0] == 'ite' for u in subterms(c))]
+        nested = len(inner) < len(conds) and _depth < 4
+        if nested: conds = inner
         if len(conds) > max_split: return False, {'reason': 'too many conditions', 'n': len(conds)}
         for asg in itertools.product((1, 0), repeat=len(conds)):
             cm = {c: C(v) for c, v in zip(conds, asg)}
@@ -527,6 +532,11 @@ def equal(a, b, facts=(), max_split=10):
                 a2, b2 = rebuild(a2, f), rebuild(b2, f)
             finally:
                 CTX = saved
+            if a2 != b2 and nested:
+                fx = tuple(facts) + tuple(c if v else bnot(c) for c, v in zip(conds, asg))
+                ok_, w_ = equal(a2, b2, fx, max_split, _depth + 1)
+                if ok_: continue
+                return False, w_
             if a2 != b2:
                 return False, {'parity': {key(x): p for x, p in zip(pa, par)},
                                'conds': {show(c): v for c, v in zip(conds, asg)},
@@ -545,8 +555,16 @@ def _consistent(cm, facts):
             seen[c[1]] = c[2]
         elif c[0] == 'isvar' and v[1] == 0:
             neg.setdefault(c[1], set()).add(c[2])
+    for f in facts:
+        # variant tests among the facts count too: `x is A` excludes every other variant, `!(x is A)` uses one up
+        if f[0] == 'isvar':
+            if f[1] in seen and seen[f[1]] != f[2]: return False
+            seen.setdefault(f[1], f[2])
+        elif f[0] == 'bnot' and f[1][0] == 'isvar':
+            neg.setdefault(f[1][1], set()).add(f[1][2])
     for x, vs in neg.items():
         if ENUM_VARIANTS.get(x) is not None and len(vs) >= ENUM_VARIANTS[x]: return False
+        if x in seen and seen[x] in vs: return False
     for f in facts:
         if subst(f, cm) == FALSE: return False
     return True
